@@ -569,12 +569,17 @@ LEVEL_WORDS = ['ns', 'aggregate', 'insert', 'find', 'update', 'collection', 'del
                'getIndexes', 'countDocuments', 'query', 'filter', 'sort', 'q', 'u', 'updates', 'deletes', 'documents', 'pipeline', 'command', 'cmd', 'originatingCommand', 'remote',
                'planSummary', 'attr', 'c', 'msg', 't', 's', 'id', 'ctx', 'getMore', 'distinct', 'key']
 
+# strings shaped like what one of the flags looks for (a network location for --redactIPs, a namespace for --redactNamespaces, an e-mail address, a plan
+# summary, a field reference), drawn as ordinary string values at EVERY place of arbitrary-JSON lines - also where the flag must not act
+FLAG_SHAPED = ['10.20.30.40:27017', '192.168.1.1', '127.0.0.1:51234', '[::1]:27017', '255.255.255.255:65535', 'connection from 10.1.2.3:4444 ended', 'db-host-7.example.net:27017',
+               'mydb.users', 'shop.orders', 'admin.$cmd', 'someone@example.org', 'IXSCAN { name: 1 }', 'COLLSCAN']
+
 def anyjson_tree(rng, vocab, depth=0, maxdepth=5):
     ks = ['str', 'str', 'num', 'bool', 'null', 'obj', 'obj', 'arr', 'emptyobj', 'emptyarr', 'dollar']
     if depth >= maxdepth: ks = ['str', 'num', 'bool', 'null', 'emptyobj', 'emptyarr', 'dollar']
     k = rng.choice(ks)
     if k == 'str': return rng.choice(['x', '', 'a@b.co', 'héllo', '2024-01-01T00:00:00Z', 'REDACTED', '0123456789abcdef01234567', 'a"b\\c\n', '\U0001F600', '<tag>&',
-                                      'C:\\dir\\file.txt', 'lit\\u0041esc', 'trail\\', '100% sure', '%s%d%v%n', 'web%2Fcheckout', '%"q', '\x1b[31mred\x1b[0m', 'bell\x07', 'vt\x0b ff\x0c bs\x08', 'del\x7f', 'tag\U000e0001x', 'nbsp\u00a0 ls\u2028 ps\u2029', '\ufeffbom', 'nul\x00z'])
+                                      'C:\\dir\\file.txt', 'lit\\u0041esc', 'trail\\', '100% sure', '%s%d%v%n', 'web%2Fcheckout', '%"q', '\x1b[31mred\x1b[0m', 'bell\x07', 'vt\x0b ff\x0c bs\x08', 'del\x7f', 'tag\U000e0001x', 'nbsp\u00a0 ls\u2028 ps\u2029', '\ufeffbom', 'nul\x00z'] + FLAG_SHAPED)
     if k == 'dollar': return rng.choice(['$name', '$$ROOT', '$', '$a.b', '$eq', '$limit'])
     if k == 'num': return RawNum(rng.choice(['0', '1', '-1', '1.5', '1e10', '-0', '12345678901234567890', '0.1e-7', '1E+2', '9007199254740993', '-0.0', '-0e0', '0.0', '1.0', '100e-2', '1E0', '0.10', '1e400', '-1e-400', '0.0000001', '-0.0000005', '1000000000000000000000', '0.000001', '999999999999999999999.5']))
     if k == 'bool': return rng.choice([True, False])
@@ -594,11 +599,12 @@ def anyjson_line(rng, vocab):
     def cmd():
         return {k: anyjson_tree(rng, vocab, 1) for k in rng.sample(cmdkeys, rng.randint(0, 6))}
     attr = {}
-    for k in rng.sample(['command', 'cmd', 'originatingCommand', 'ns', 'remote', 'planSummary', 'x', 'durationMillis', 'collection', 'count', 'find', 'update', '$db', 'insert', 'aggregate', 'delete', 'filter', 'query'], rng.randint(0, 7)):
+    for k in rng.sample(['command', 'cmd', 'originatingCommand', 'ns', 'remote', 'planSummary', 'x', 'durationMillis', 'collection', 'count', 'find', 'update', '$db', 'insert', 'aggregate', 'delete', 'filter', 'query', 'client', 'target', 'error', 'host'], rng.randint(0, 8)):
         if k in ('command', 'cmd', 'originatingCommand'):
             attr[k] = cmd() if rng.random() < 0.85 else anyjson_tree(rng, vocab, 3)
         elif k == 'ns': attr[k] = rng.choice(['mydb.users', 'x', '', RawNum('5'), None, 'a.b.c'])
         elif k == 'remote': attr[k] = rng.choice(['1.2.3.4:5', RawNum('7'), None, {}])
+        elif k in ('client', 'target', 'error', 'host'): attr[k] = rng.choice(FLAG_SHAPED)      # attributes that are NOT attr.remote / attr.ns / attr.planSummary
         elif k == 'planSummary': attr[k] = rng.choice(['COLLSCAN', 'IXSCAN { a: 1 }', 'IXSCAN { a: 1, b.c: -1 } IXSCAN { d: 1 }', RawNum('3'), 'IXSCAN {}', 'IXSCAN{x:1}'])
         elif k in ('collection', 'count', 'find', 'update', '$db', 'insert', 'aggregate', 'delete') and rng.random() < 0.6: attr[k] = rng.choice(['orders', '12 of 40 chunks', 'mydb', 'users.archive', ''])      # an attribute of that NAME, not a command member
         else: attr[k] = anyjson_tree(rng, vocab, 3)
@@ -842,6 +848,45 @@ def long_value_lines():
         l = '{"t":{"$date":"2020-01-01T00:00:00.000+00:00"},"s":"I","c":"COMMAND","id":51803,"ctx":"conn1","msg":"Slow query","attr":{"ns":"d.c","command":%s,"remote":"10.0.0.1:5"}}' % cmd
         out.append((l.encode(), {'kind': 'longvalue', 'sensitive': [(a, 'string', 'long literal %d' % n), (b, 'string', 'long literal %d' % n)], 'sens_numbers': [], 'ip': '10.0.0.1:5',
                                  'stats': {'longvalue_%d' % n: 1}, 'names': ['f', 'g', 'k', 'v'], 'verbs': ['longvalue']}))
+    return out
+
+def degenerate_lines(dump):
+    """degenerate shapes where the grammar expects a list of clauses, a pipeline or a stage: for every table entry typed as an operator array or a
+    pipeline (read from the dump), each of: an empty document, an empty list, a LONE document in place of the list, a list holding an empty document
+    (first / last), lists in lists, null, a scalar - directly in $match, below a field, in stage position, inside a search stage and its compound
+    clause, in find filters; and the same values as a whole pipeline, as a $facet arm and as the sub-pipeline of $lookup / $unionWith"""
+    ot = dump.get('otypes', {})
+    want = {ot.get('OperatorArray', 4), ot.get('Pipeline', 0)}
+    ops = []
+    def walk(m):
+        for k, v in m['m']:
+            if (isinstance(v, int) and v in want) or (isinstance(v, dict) and v.get('t') in want):
+                if k not in ops: ops.append(k)
+            if isinstance(v, dict) and 'm' in v: walk(v)
+    for name in ['Agg', 'Core', 'MapDefs', 'Search', 'SearchAgg']:
+        walk(dump['tables'][name])
+    for k in ('$and', '$or', '$nor', 'must', 'mustNot', 'should', 'filter', 'pipeline', '$facet'):
+        if k not in ops: ops.append(k)
+    vals = ['{}', '[]', '{"dg_a":"dgs1","dg_b":{"dg_c":"dgs2"}}', '[{}]', '[{},{"$match":{"dg_a":"dgs3"}}]', '[{"$match":{"dg_a":"dgs4"}},{}]', '[[]]', '[[{"dg_a":"dgs5"}]]',
+            'null', '"dgs6"', '5', '[null]', '["dgs7",{"dg_a":"dgs8"}]', '{"text":{"query":"dgs9","path":"title"}}']
+    out = []
+    def line(cmd):
+        out.append(('{"t":{"$date":"2024-01-01T00:00:00.000+00:00"},"s":"I","c":"COMMAND","id":51803,"ctx":"conn1","msg":"Slow query","attr":{"ns":"d.c","command":%s}}' % cmd).encode())
+    for k in ops:
+        kq = json.dumps(k)
+        for v in vals:
+            kv = '%s:%s' % (kq, v)
+            line('{"aggregate":"c","pipeline":[{"$match":{%s}},{"$match":{"dg_f":{%s}}},{"$limit":3}],"$db":"d"}' % (kv, kv))
+            line('{"aggregate":"c","pipeline":[{%s},{"$sort":{"dg_a":1}}],"$db":"d"}' % kv)
+            line('{"aggregate":"c","pipeline":[{"$search":{"index":"i1","compound":{%s}}},{"$search":{"index":"i2",%s}}],"$db":"d"}' % (kv, kv))
+            line('{"find":"c","filter":{%s,"dg_g":{%s}},"$db":"d"}' % (kv, kv))
+    for v in vals:
+        line('{"aggregate":"c","pipeline":%s,"$db":"d"}' % v)
+        line('{"aggregate":"c","pipeline":[{"$facet":{"arm1":%s,"arm2":[{"$match":{"dg_a":"dgs0"}}]}}],"$db":"d"}' % v)
+        line('{"aggregate":"c","pipeline":[{"$lookup":{"from":"o","pipeline":%s,"as":"x"}},{"$unionWith":{"coll":"o","pipeline":%s}}],"$db":"d"}' % (v, v))
+        line('{"update":"c","updates":%s,"$db":"d"}' % v)
+        line('{"update":"c","updates":[{"q":%s,"u":%s}],"$db":"d"}' % (v, v))
+        line('{"insert":"c","documents":%s,"$db":"d"}' % v)
     return out
 
 def vocab_from_dump(dump):
